@@ -4,6 +4,7 @@ import (
 	"context"
 	"fmt"
 	"testing"
+	"time"
 
 	"verif/evid"
 	"verif/kit"
@@ -193,16 +194,12 @@ func TestC18Builtins(t *testing.T) {
 					}
 				}
 				x.R.CancelScope(tag)
-				select {
-				case <-ctx.Done():
-				default:
-					f = fail("C18", "ctx-cancel", "own", "the caller's context of s%d was cancelled but s%d.Context() is not done", tag, tag)
+				if !kit.WaitOrTimeout(ctx.Done(), 5*time.Second) {
+					f = fail("C18", "ctx-cancel", "own", "the caller's context of s%d was cancelled but s%d.Context() is not done after 5 s", tag, tag)
 				}
 				for _, bc := range below {
-					select {
-					case <-bc.Done():
-					default:
-						f = fail("C18", "ctx-cancel", "nil-child", "a child created with a nil context is not cancelled with its parent s%d", tag)
+					if !kit.WaitOrTimeout(bc.Done(), 5*time.Second) {
+						f = fail("C18", "ctx-cancel", "nil-child", "a child created with a nil context is not cancelled with its parent s%d after 5 s", tag)
 					}
 				}
 				nt = true
